@@ -108,16 +108,28 @@ def _with_names(case, names):
     return case
 
 
-def _hist(ops, names=None):
-    return _with_names({'kind': 'hist', 'inp': {'ops': normalise(ops)}}, names)
+def _with_co(case, co):
+    if co:
+        case['inp']['co'] = co
+    return case
 
 
-def _prog(ops):
-    return {'kind': 'prog', 'inp': {'ops': list(ops)}}
+def _hist(ops, names=None, co=None):
+    return _with_co(_with_names({'kind': 'hist', 'inp': {'ops': normalise(ops)}}, names), co)
 
 
-def _histx(ops, raisers, names=None):
-    return _with_names({'kind': 'histx', 'inp': {'ops': normalise(ops), 'raise': sorted(set(raisers))}}, names)
+def _prog(ops, co=None):
+    return _with_co({'kind': 'prog', 'inp': {'ops': list(ops)}}, co)
+
+
+def _histx(ops, raisers, names=None, co=None):
+    return _with_co(_with_names({'kind': 'histx', 'inp': {'ops': normalise(ops), 'raise': sorted(set(raisers))}}, names), co)
+
+
+def CO(ops=None, sched=(), born=0, who=0, share=False):
+    """A second emitter alive beside the judged one (see _run_co)."""
+    return {'ops': None if ops is None else normalise(ops), 'sched': list(sched), 'born': born, 'who': who,
+            'share': bool(share)}
 
 
 # ---- stage 5: spelling of the event names (implementation-side axis) --------------------------------------
@@ -177,6 +189,37 @@ def _respell(cases, rng):
     return cases
 
 
+# ---- stage 6: other emitters alive in the same process (environment axis) ----------------------------------
+
+CO_ACTIONS = ['new', 'new', 'reset', 'ss', 'emit']
+
+
+def _draw_co(rng, case):
+    ops = case['inp']['ops']
+    if case['kind'] == 'prog':
+        n = rng.choice([1, 1, 2, 3])
+        return sorted([rng.randrange(len(ops)), rng.choice(CO_ACTIONS)] for _ in range(n)) if ops else None
+    r = rng.random()
+    if r < 0.45:
+        bops = None                                        # the same history on both emitters
+    elif r < 0.7:
+        bops = [list(o) for o in rng.choice(CO_SHORT)]
+    else:
+        bops = [_rand_op(rng) for _ in range(rng.randint(1, 6))]
+    nb = len(ops) if bops is None else len(bops)
+    bits = [0] * len(ops) + [1] * nb
+    rng.shuffle(bits)
+    return CO(bops, bits, rng.choice([0, 0, 1, 2]), rng.choice([0, 0, 1]), rng.random() < 0.3)
+
+
+def _add_co(cases, rng, frac=1.0):
+    """Give the histories of `cases` a drawn second emitter (in place; drawn last: the histories are unchanged)."""
+    for c in cases:
+        if 'co' not in c['inp'] and (frac >= 1.0 or rng.random() < frac):
+            _with_co(c, _draw_co(rng, c))
+    return cases
+
+
 def _names_of(inp):
     s0, s1, bad = inp.get('names') or DEFAULT_NAMES
     return s0, s1, bad
@@ -203,6 +246,10 @@ def _wellbracketed(seq):
             d -= 1
     return True
 
+
+# what the other emitter does when it does not run the same history
+CO_SHORT = [[R], [C(F0)], [C(F1, 0)], [C(F2, 0, None, True)], [E(0, 0, (7,))], [SS(True)], [EN], [U(F0)], [U(0)],
+            [C(F0), E(0, 0, (7,))], [C(F0), R], [EN, E(0, 0, (7,)), EX], [C(F1, 0, 0), E(0, 0, (7,)), U(0)], []]
 
 SILENCING = [C(F0), EN, EX, EXX, SS(True), SS(False), E(0, 0, (7,))]
 
@@ -380,6 +427,19 @@ def corpus():
     cs.append(_hist([C(F2), C(F4), C(F0), e, C(F2, 0), e], ['next', 'open', 'on_']))     # ValueError for 'on_' / 'xon_..'
     cs.append(_hist([C(F2), C(F4), C(F0), e, C(F2, 0), e], ['open', 'next', 'xon_open']))
     cs.append(_histx([C(F0), C(F1, 0), C(F1), e, e1], [1], ['open', 'next', None]))
+    # --- stage 6: a second emitter alive in the same process (registrations are per emitter) ---
+    cs.append(_hist([C(F0), e], co=CO([], [0, 1, 0])))                   # another emitter is constructed half-way
+    cs.append(_hist([C(F0), e], co=CO([R], [0, 1, 0], born=1)))          # ... is reset
+    cs.append(_hist([C(F0), e], co=CO([C(F1, 0)], [0, 1, 0], born=1)))   # ... gets a callback for the same event
+    cs.append(_hist([C(F0), e], co=CO([C(F1, 0), e], [0, 1, 1, 0], born=2)))     # ... emits the same event
+    cs.append(_hist([C(F0), e], co=CO([SS(True)], [0, 1, 0], born=1)))   # ... is silenced
+    cs.append(_hist([C(F0), e], co=CO([EN], [0, 1, 0], born=1, who=1)))  # the global emitter is silenced
+    cs.append(_hist([C(F0), e, U(F0), e], co=CO([C(F0), U(F0), e], [0, 1, 0, 1, 0, 1, 0], born=1, share=True)))
+    cs.append(_hist([C(F2, 0, None, True), C(F0), C(F1, 0, 0), e, U(0), e, R, e], co=CO(None, [0, 1, 0, 0, 1, 1, 0, 1, 1, 0, 0])))
+    cs.append(_hist([C(F0), EN, e, EX, e], co=CO(None, [0, 1, 0, 0, 1, 1, 0], born=1, who=1)))
+    cs.append(_histx([C(F0), C(F1, 0), e, e], [1], co=CO(None, [0, 1, 0, 1, 0, 1], born=0)))
+    cs.append(_prog([['m', 2], ['inc'], ['inc']], [[2, 'new']]))         # an emitter constructed before the crossing
+    cs.append(_prog([['m', 2], ['inc'], ['inc'], ['v', 0], ['v', 2]], [[1, 'new'], [2, 'emit'], [3, 'reset'], [4, 'ss']]))
     return cs
 
 
@@ -392,7 +452,7 @@ def generate(tier, rng):
             cases.append(_rand_prog(rng, 2, 10))
         for _ in range(3000):
             cases.append(_rand_histx(rng, 2, 10))
-        return _respell(cases, rng)
+        return _add_co(_respell(cases, rng), rng)
     quick = tier == 'quick'
     cases += list(_exhaustive_hist(4 if quick else 5, SMALL))
     cases += list(_exhaustive_hist(5 if quick else 6, SILENCING))
@@ -409,7 +469,13 @@ def generate(tier, rng):
     for _ in range(nh // 4):
         cases.append(_rand_histx(rng, 2, 9 if quick else 12))
     # stage 5: every history gets a drawn spelling of its event names (drawn last: the histories above are unchanged)
-    return _respell(cases, rng)
+    # stage 6: every emitter history is also run beside a drawn second emitter, a third of the reporter histories
+    # beside an unrelated emitter (drawn after the spellings: histories and spellings above are unchanged)
+    _respell(cases, rng)
+    progs = [c for c in cases if c['kind'] == 'prog']
+    _add_co([c for c in cases if c['kind'] != 'prog'], rng)
+    _add_co(progs, rng, 0.34)
+    return cases
 
 
 # ---- implementation side -------------------------------------------------------------------------
@@ -467,13 +533,19 @@ class _Boom(Exception):
 
 
 class _World(object):
-    def __init__(self, cfg, raisers=(), names=None):
+    """One emitter with its callbacks and sender objects. Stage 6: several worlds may live in one process and share
+    one call log; a log entry is [tag, record] with tag = wid of the world that made the callback (None: callbacks
+    shared by both worlds). A world sees the calls of callbacks of another world with the function id + 100."""
+    def __init__(self, cfg, raisers=(), names=None, log=None, wid=0, peer=None):
         self.cfg = cfg
         self.names = list(names or DEFAULT_NAMES)
         self.raisers = frozenset(raisers)
-        self.log = []
-        self.funcs = {}
-        self.objs = {}
+        self.log = [] if log is None else log
+        self.wid = wid
+        self.tag = wid if peer is None else None
+        self.mark = None                 # co-run: length of the shared log at the end of this world's previous operation
+        self.funcs = {} if peer is None else peer['funcs']      # peer: callback / sender objects shared with the other world
+        self.objs = {} if peer is None else peer['objs']
         from phylib.utils import event as ev
         if cfg == 0:
             em = ev.EventEmitter()
@@ -502,30 +574,44 @@ class _World(object):
         if key in self.funcs:
             return self.funcs[key]
         log = self.log
+        tag = self.tag
         rec0 = [fid, name, owner]
         boom = fid in self.raisers
         if owner is None:
             def body(sender, *args, **kwargs):
                 rec = rec0 + [_dec_sender(sender), [_dec_int(a) for a in args], _dec_kw(kwargs)]
-                log.append(rec)
+                log.append([tag, rec])
                 if boom:
                     raise _Boom(fid)
-                return ('res', rec)
+                return ('res', rec, tag)
             f = body
         else:
             import types
 
             def body(self_, sender, *args, **kwargs):
                 rec = rec0 + [_dec_sender(sender), [_dec_int(a) for a in args], _dec_kw(kwargs)]
-                log.append(rec)
+                log.append([tag, rec])
                 if boom:
                     raise _Boom(fid)
-                return ('res', rec)
+                return ('res', rec, tag)
             f = types.MethodType(body, self.obj(owner, canonical=True))
         body.__name__ = ('on_' + self.ev(name)) if name is not None else (self.names[2] or 'cb%d' % fid)
         body.__qualname__ = body.__name__
         self.funcs[key] = f
         return f
+
+    def _view(self, tag, rec):
+        """A call record as this world sees it: a callback made by another world is not one of its functions."""
+        return rec if tag is None or tag == self.wid else [rec[0] + 100] + list(rec[1:])
+
+    def _window(self, n0):
+        """Calls attributed to the emit that began at log length n0: everything logged during it, preceded (co-run) by
+        the calls that callbacks of THIS world received since its previous operation (nothing of this emitter ran then:
+        only another emitter can have made them)."""
+        pre = []
+        if self.mark is not None and self.tag is not None:
+            pre = [e for e in self.log[self.mark:n0] if e[0] == self.wid]
+        return [self._view(t, r) for t, r in pre + self.log[n0:]]
 
     def do(self, o):
         k = o[0]
@@ -595,14 +681,14 @@ class _World(object):
             try:
                 r = self.emit(self.ev(evn), self.obj(snd), *args, **kwargs)
             except _Boom:
-                return ['raise', self.log[n0:]]
-            calls = self.log[n0:]
+                return ['raise', self._window(n0)]
+            calls = self._window(n0)
             if r is None:
                 ret = ['none']
-            elif isinstance(r, list) and all(isinstance(x, tuple) and len(x) == 2 and x[0] == 'res' for x in r):
-                ret = ['list', [x[1] for x in r]]
-            elif isinstance(r, tuple) and len(r) == 2 and r[0] == 'res':
-                ret = ['single', r[1]]
+            elif isinstance(r, list) and all(isinstance(x, tuple) and len(x) == 3 and x[0] == 'res' for x in r):
+                ret = ['list', [self._view(x[2], x[1]) for x in r]]
+            elif isinstance(r, tuple) and len(r) == 3 and r[0] == 'res':
+                ret = ['single', self._view(r[2], r[1])]
             else:
                 ret = ['weird']
             return ['emit', calls, ret]
@@ -633,6 +719,55 @@ def _run_hist(ops, cfg, raisers=(), names=None):
     return out
 
 
+def _run_co(ops, cfg, raisers, names, co):
+    """Stage 6: the history `ops` on one emitter (configuration cfg) WHILE a second emitter is alive in the same
+    process and performs co['ops'] (None: the same history), interleaved by co['sched'] (0: the judged emitter does
+    its next operation, 1: the other one does; what is left over runs afterwards, judged emitter first).
+    co['born']: 0 = the other emitter is constructed just before its first operation (i.e. half-way), 1 = at the start
+    after the judged one, 2 = at the start before it. co['who'] = 1: the other emitter is the module-level global one
+    (only when the judged one is a fresh EventEmitter). co['share']: both connect the SAME callback / sender objects.
+    Returns (observations of the judged emitter, observations of the other one)."""
+    bops = ops if co.get('ops') is None else co['ops']
+    bcfg = 1 if (cfg == 0 and co.get('who') == 1) else 0
+    share = bool(co.get('share')) and bcfg == cfg
+    born = co.get('born', 0)
+    log = []
+    peer = {'funcs': {}, 'objs': {}} if share else None
+    ws = [None, None]
+
+    def make(i):
+        if ws[i] is None:
+            ws[i] = _World(cfg if i == 0 else bcfg, raisers, names, log=log, wid=i, peer=peer)
+            ws[i].mark = len(log)
+        return ws[i]
+    outs = ([], [])
+    todo = (list(ops), list(bops))
+    pos = [0, 0]
+    try:
+        if born == 2:
+            make(1)
+        make(0)
+        if born == 1:
+            make(1)
+        sched = [1 if x else 0 for x in co.get('sched', [])] + [0] * len(ops) + [1] * len(bops)
+        for i in sched:
+            if pos[i] >= len(todo[i]):
+                continue
+            w = make(i)
+            o = todo[i][pos[i]]
+            pos[i] += 1
+            try:
+                outs[i].append(w.do(o))
+            except Exception as e:
+                outs[i].append(['exc', type(e).__name__])
+            w.mark = len(log)
+    finally:
+        for w in (ws[1], ws[0]):
+            if w is not None:
+                w.close()
+    return outs
+
+
 _TOK = None
 
 
@@ -655,7 +790,12 @@ def _tokens(text):
     return out
 
 
-def _run_prog(ops):
+def _run_prog(ops, co=()):
+    """co (stage 6) = [[position, action], ...]: before the operation at `position` an UNRELATED EventEmitter does
+    'new' (one more is constructed and gets callbacks for complete / progress, unfiltered and filtered on pr),
+    'reset', 'ss' (set_silent(True)), 'emit' (it emits complete and progress with sender pr: only its own callbacks
+    may be called). A call of one of its callbacks outside its own emits, or of pr's callbacks inside them, is logged
+    and makes the observation of that operation differ from the model."""
     import contextlib
     import io
     import phylib.utils as pu
@@ -683,8 +823,32 @@ def _run_prog(ops):
             other.value_max = 1
             other.value = 1
         out = []
-        for o in ops:
+        ems, inb = [], [0]
+        from phylib.utils.event import EventEmitter
+
+        def bystander(action):
+            if action == 'new' or not ems:
+                em = EventEmitter()
+                em.connect(lambda sender, **kwargs: inb[0] or log.append(['x']), event='complete')
+                em.connect(lambda sender, *a, **kwargs: inb[0] or log.append(['x']), event='progress', sender=pr)
+                em.connect(lambda sender, **kwargs: inb[0] or log.append(['x']), event='complete', sender=pr, last=True)
+                ems.append(em)
+            if action == 'reset':
+                ems[-1].reset()
+            elif action == 'ss':
+                ems[-1].set_silent(True)
+            elif action == 'emit':
+                inb[0] += 1
+                try:
+                    ems[-1].emit('progress', pr, 1, 2)
+                    ems[-1].emit('complete', pr)
+                finally:
+                    inb[0] -= 1
+        for idx, o in enumerate(ops):
             n0 = len(log)
+            for cpos, action in co:
+                if cpos == idx:
+                    bystander(action)
             k = o[0]
             kw = dict(('k%d' % a, b) for a, b in (o[1] if k in ('inc', 'sc') and len(o) > 1 else []))
             buf = io.StringIO()
@@ -718,24 +882,39 @@ def _run_prog(ops):
         pu.set_silent(False)
 
 
+def all_runs(case):
+    """[(label, observations)]: every implementation-side run of an emitter history that must equal the model."""
+    i = case['inp']
+    raisers = i.get('raise', ())
+    out = []
+    for cfg in (0, 1):
+        out.append(('alone cfg=%d' % cfg, _run_hist(i['ops'], cfg, raisers, i.get('names'))))
+    co = i.get('co')
+    if co:
+        for cfg in (0, 1):
+            a, b = _run_co(i['ops'], cfg, raisers, i.get('names'), co)
+            out.append(('beside another emitter cfg=%d' % cfg, a))
+            if co.get('ops') is None:
+                out.append(('the other emitter (same history) cfg=%d' % cfg, b))
+    return out
+
+
 def run_case(case):
     k, i = case['kind'], case['inp']
-    if k == 'hist':
+    if k in ('hist', 'histx'):
         runs = []
-        for cfg in (0, 1):
-            r = _run_hist(i['ops'], cfg, (), i.get('names'))
+        for _, r in all_runs(case):
             if r not in runs:
                 runs.append(r)
-        return ('hist', runs)
-    if k == 'histx':
-        runs = []
-        for cfg in (0, 1):
-            r = _run_hist(i['ops'], cfg, i['raise'], i.get('names'))
-            if r not in runs:
-                runs.append(r)
-        return ('histx', runs)
+        return (k, runs)
     if k == 'prog':
-        return ('prog', _run_prog(i['ops']))
+        r = _run_prog(i['ops'])
+        if i.get('co'):
+            r2 = _run_prog(i['ops'], i['co'])
+            if r2 != r:
+                # one observation list per history: report the run beside the other emitter (the model is the same)
+                return ('prog', r2)
+        return ('prog', r)
     raise ValueError(k)
 
 
@@ -909,6 +1088,18 @@ def dist(case, obs):
     if obs[0] == 'crash':
         out.append('crash=' + obs[1])
         return out
+    co = case['inp'].get('co')
+    if co and k == 'prog':
+        out.append('prog.beside_unrelated_emitter')
+        for a in sorted(set(a for _, a in co)):
+            out.append('prog.other_emitter_does=' + a)
+    elif co:
+        out.append('co=' + ('same_history' if co.get('ops') is None else 'other_history.len=%s' % _bucket(len(co['ops']))))
+        out.append('co.born=%s' % ['half-way', 'at start, second', 'at start, first'][co.get('born', 0)])
+        out.append('co.other_is_global_emitter=%s' % bool(co.get('who')))
+        out.append('co.shared_callbacks=%s' % bool(co.get('share')))
+        sw = sum(1 for a, b in zip(co.get('sched', []), co.get('sched', [])[1:]) if a != b)
+        out.append('co.schedule_switches=%s' % _bucket(sw))
     if k in ('hist', 'histx'):
         s0, s1, bad = _names_of(case['inp'])
         out.append('names=' + ('default' if [s0, s1] == DEFAULT_NAMES[:2] else 'drawn'))
@@ -966,27 +1157,80 @@ def dist(case, obs):
 
 
 def size(case):
-    return len(case['inp']['ops']) * 1000 + len(str(case['inp']['ops'])) + len(str(case['inp'].get('names') or ''))
+    co = case['inp'].get('co')
+    cosz = 0
+    if co:
+        cosz = 500 + (len(co) * 100 if isinstance(co, list) else
+                      len(co.get('ops') or []) * 100 + (300 if co.get('ops') is None else 0) + len(str(co)))
+    return (len(case['inp']['ops']) * 1000 + len(str(case['inp']['ops'])) + len(str(case['inp'].get('names') or ''))
+            + cosz)
+
+
+def _shrink_co(case):
+    """Simpler second emitters for the same history: none; fewer / simpler operations; plain schedule; plain flags."""
+    import copy
+    co = case['inp'].get('co')
+    if not co:
+        return
+
+    def withco(new):
+        c = copy.deepcopy(case)
+        if new:
+            c['inp']['co'] = new
+        else:
+            c['inp'].pop('co', None)
+        return c
+    yield withco(None)
+    if isinstance(co, list):                     # reporter history
+        for j in range(len(co)):
+            if len(co) > 1:
+                yield withco(co[:j] + co[j + 1:])
+            if co[j][1] != 'new':
+                yield withco(co[:j] + [[co[j][0], 'new']] + co[j + 1:])
+        return
+    n = len(case['inp']['ops'])
+    if co.get('ops') is None:
+        yield withco(dict(co, ops=[]))
+        yield withco(dict(co, ops=[['r']]))
+        yield withco(dict(co, ops=[list(o) for o in case['inp']['ops']]))
+    else:
+        bo = co['ops']
+        for j in range(len(bo)):
+            yield withco(dict(co, ops=normalise(bo[:j] + bo[j + 1:])))
+    for key, plain in (('share', False), ('who', 0), ('born', 1), ('born', 0)):
+        if co.get(key) != plain:
+            yield withco(dict(co, **{key: plain}))
+    sched = co.get('sched', [])
+    for plain in ([0] * n, [1] * 50 + [0] * n):    # the other emitter entirely after / entirely before
+        if sched != plain and sched != plain[:len(sched)]:
+            yield withco(dict(co, sched=plain))
+    for j in range(len(sched)):
+        if sched[j] == 1:
+            yield withco(dict(co, sched=sched[:j] + sched[j + 1:]))
 
 
 def shrink(case):
     k, ops = case['kind'], case['inp']['ops']
+    co = case['inp'].get('co')
+    for c in _shrink_co(case):
+        yield c
     if k == 'histx':
         rs = case['inp']['raise']
         nm = case['inp'].get('names')
-        mk = lambda new: _histx(new, rs, nm)
+        mk = lambda new: _histx(new, rs, nm, co)
         for j in range(len(rs)):
             if len(rs) > 1:
-                yield _histx(ops, rs[:j] + rs[j + 1:], nm)
+                yield _histx(ops, rs[:j] + rs[j + 1:], nm, co)
     elif k == 'hist':
         nm = case['inp'].get('names')
-        mk = lambda new: _hist(new, nm)
+        mk = lambda new: _hist(new, nm, co)
     else:
         nm = None
-        mk = _prog
+        # positions of the other emitter's actions stay inside the shorter history
+        mk = lambda new: _prog(new, [[min(a, max(len(new) - 1, 0)), b] for a, b in co] if co else None)
     if nm is not None:
         # simplify the spelling: all default, then one component at a time
-        mkn = (lambda n: _histx(ops, case['inp']['raise'], n)) if k == 'histx' else (lambda n: _hist(ops, n))
+        mkn = ((lambda n: _histx(ops, case['inp']['raise'], n, co)) if k == 'histx' else (lambda n: _hist(ops, n, co)))
         yield mkn(None)
         for j in range(3):
             if nm[j] != DEFAULT_NAMES[j] and (j == 2 or nm[1 - j] != DEFAULT_NAMES[j]):
@@ -1054,6 +1298,15 @@ def repro(case):
     k, ops = case['kind'], case['inp']['ops']
     pre = ("import sys; sys.path[:0] = ['/verif/harness', '/repo']\n"
            "from vt import npshim; npshim.setup_process()\n")
+    if k == 'prog' and case['inp'].get('co'):
+        return pre + ("from vt.props import c19\n"
+                      "case = %r\n"
+                      "# case['inp']['co'] = [[position, what an unrelated EventEmitter does before that operation], ...]\n"
+                      "# per operation: [events received from the reporter (['x'] = a call that crossed emitters), value,\n"
+                      "#                 maximum, is_complete, progress, printed]\n"
+                      "for label, co in (('alone', ()), ('beside an unrelated emitter', case['inp']['co'])):\n"
+                      "    for op, ob in zip(case['inp']['ops'], c19._run_prog(case['inp']['ops'], co)):\n"
+                      "        print(label, op, '->', ob)\n" % (case,))
     if k == 'prog':
         lines = ["from phylib.utils.event import ProgressReporter, connect, reset", "reset(); pr = ProgressReporter()",
                  "connect(lambda sender, v, m, **k: print('  progress', v, m, k), event='progress', sender=pr)",
@@ -1076,7 +1329,9 @@ def repro(case):
                   "# per operation: ['n'] | ['err'] (ValueError on connect by name) | ['emit', calls received, returned value];\n"
                   "# a call record is [func id, event in its name, owner, sender, args, kwargs]\n"
                   "# case['inp']['names'] = [spelling of event 0, of event 1, __name__ of the callbacks not named on_<event>]\n"
-                  "for cfg in (0, 1):\n"
-                  "    for op, ob in zip(case['inp']['ops'], c19._run_hist(case['inp']['ops'], cfg, case['inp'].get('raise', ()),\n"
-                  "                                                      case['inp'].get('names'))):\n"
-                  "        print(cfg, op, '->', ob)\n" % (case,))
+                  "# case['inp']['co'] = a second emitter alive in the same process (see c19._run_co): its operations (None =\n"
+                  "#   the same history), the interleaving (0 = judged emitter's next operation, 1 = the other's), when it is\n"
+                  "#   constructed; a call of a callback of the other emitter shows with function id + 100\n"
+                  "for label, run in c19.all_runs(case):\n"
+                  "    for op, ob in zip(case['inp']['ops'], run):\n"
+                  "        print(label, '|', op, '->', ob)\n" % (case,))
